@@ -52,12 +52,13 @@ def ecef_to_geodetic(r):
 
 
 def sun_position(when: dt.datetime) -> np.ndarray:
-    """Low-precision analytic Sun (Vallado alg. 29; mean-of-date ~ ECI to 0.01 deg), km."""
+    """Low-precision analytic Sun (Vallado alg. 29, precessed back to J2000; ~0.01 deg), km."""
     jd = 2415020.5 + ((when - dt.datetime(1900, 1, 1)).total_seconds()) / 86400.0
     t = (jd - 2451545.0) / 36525.0
     lam_m = math.radians((280.460 + 36000.771 * t) % 360.0)
     m = math.radians((357.5291092 + 35999.05034 * t) % 360.0)
     lam = lam_m + math.radians(1.914666471) * math.sin(m) + math.radians(0.019994643) * math.sin(2 * m)
+    lam -= math.radians(1.3969713 * t)   # general precession in longitude: mean equinox of date -> J2000 (the repo's Sun is inertial)
     r = 1.000140612 - 0.016708617 * math.cos(m) - 0.000139589 * math.cos(2 * m)
     eps = math.radians(23.439291 - 0.0130042 * t)
     return AU * r * np.array([math.cos(lam), math.cos(eps) * math.sin(lam), math.sin(eps) * math.sin(lam)])
